@@ -127,8 +127,21 @@ def check_param_array(text, shape, want):
     return None
 
 
+def check_plike(text, vals):
+    r = core.impl_loads(text)
+    if r[0] != "ok":
+        return "refused: %r" % (r[1],)
+    op = r[1].operations[0]
+    for what, a in (("positional", op["args"][0]), ("keyword", op["kwargs"]["w"])):
+        if not isinstance(a, np.ndarray) or a.tolist() != vals:
+            return "%s argument is %r, written array %r" % (what, a, vals)
+    return None
+
+
 def replay(ctx, data):
     k = data.get("kind")
+    if k == "plike":
+        return check_plike(data["text"], data["vals"])
     if k == "param_array":
         return check_param_array(data["text"], data["shape"], data["want"])
     if k == "decls":
@@ -157,13 +170,13 @@ def jsonable_vals(vals):
 
 def run(ctx):
     ctx.rule = ("random declarations: int/float/complex/bool/str scalars with type-compatible initialisers and "
-                "int/float/complex arrays up to 6x6 (quick) / 12x12 (thorough), with and without declared shape; "
+                "int/float/complex arrays up to 6x6 (quick) / 12x12 (thorough), 150 / 1500 scripts, with and without declared shape; "
                 "every element, dtype and shape is compared with the independent Python evaluation of the written "
                 "rows; every index k of every array is read through G(A[k]); ragged and mis-shaped variants of "
                 "every array (including ones that keep the first row and the total size) must be rejected; arrays with 2-5 "
                 "template parameters among literal elements keep every element and parameter in the cell it was written in; model LOADS vs implementation on all of them; non-trivial = an "
                 "array with at least 2 rows and 2 columns or at least 3 declarations; distinct by text")
-    n = ctx.n(150, 5000)
+    n = ctx.n(150, 1500)
     mx = ctx.n(6, 12)
     texts = []
     for i in range(n):
@@ -228,6 +241,8 @@ def run(ctx):
             bad_shapes = [[nr + 1, nc], [nr, nc + 1], [nc, nr]] if nr != nc else [[nr + 1, nc], [nr, nc + 1]]
             if nr * nc > 1:
                 bad_shapes.append([1, nr * nc] if nr != 1 else [nr * nc, 1])
+            # shapes with one or three entries contradict every two-dimensional array
+            bad_shapes += [[nr * nc], [nc], [nr, nc, 1], [1, nr, nc]]
             for bs in bad_shapes:
                 variants.append(("array declared %s but written %dx%d" % (bs, nr, nc), ("arr", ty, name, bs, rows)))
             for what, v in variants:
@@ -239,7 +254,7 @@ def run(ctx):
                 if msg:
                     ctx.violation("rejection: " + msg, {"kind": "rejected", "text": t3, "what": what})
     # arrays with several template parameters among their elements keep every element where it was written
-    for _ in range(ctx.n(100, 2000)):
+    for _ in range(ctx.n(100, 1000)):
         text, shape, want = param_array_case(ctx.rng, ctx.n(4, 6))
         ctx.count("array-with-parameters")
         ctx.case(text, nontrivial=True)
@@ -248,4 +263,19 @@ def run(ctx):
         if msg:
             ctx.violation("layout with parameters: " + msg,
                           {"kind": "param_array", "text": text, "shape": shape, "want": want})
+    # in a tdm program only names of the exact form p<digits> are p-arrays: an array called p0_phase or
+    # p1x is an ordinary variable and reaches an operation by value, with its layout
+    for _ in range(ctx.n(40, 400)):
+        nm = ctx.rng.choice(["p0_phase", "p1x", "p12a", "p3_", "pp0", "p_1", "P0"])
+        nr, nc = ctx.rng.randrange(1, 3), ctx.rng.randrange(1, 4)
+        vals = [[ctx.rng.randrange(0, 40) / 4 for _ in range(nc)] for _ in range(nr)]
+        text = ("name t\nversion 1.0\ntype tdm (temporal_modes=2)\n\nfloat array %s =\n" % nm +
+                "".join("    " + ", ".join(repr(float(v)) for v in row) + "\n" for row in vals) +
+                "G(%s, w=%s) | 0\n" % (nm, nm))
+        ctx.count("tdm-array-with-p-like-name")
+        ctx.case(text, nontrivial=True)
+        texts.append(text)
+        msg = check_plike(text, vals)
+        if msg:
+            ctx.violation("p-like name: " + msg, {"kind": "plike", "text": text, "vals": vals})
     common.loads_corr(ctx, texts, "LOADS(decl)")
